@@ -814,16 +814,20 @@ def e_replay(inst, res, v):
         ent = spec[1]
         calls = [0]
 
-        def arm(tag):
+        def arm(tag, cur):
+            # a raising closing mapper: the CURRENT window (window 0 at the first call, inside subscribe();
+            # the window just handed at a later call) ends with the error, then the outer sequence; every
+            # earlier window has completed, so nothing is listened to any more (common_checks: source released)
             j = calls[0]
             calls[0] += 1
             e = ent[j] if j < len(ent) else ("ok", None)
             if e[0] == "raise":
+                exp.to(cur, tag, "E", UserError(e[1]))
                 exp.end_outer(tag, "E", UserError(e[1]))
                 return None
             return 1 + j
         cur = exp.open_window(0)
-        closing = arm(0)
+        closing = arm(0, cur)
         for (tag, t, i) in acc:
             k, ev = i[1], i[2]
             if k == 0:
@@ -837,7 +841,7 @@ def e_replay(inst, res, v):
                 else:
                     exp.to(cur, tag, "C")
                     cur = exp.open_window(tag)
-                    closing = arm(tag)
+                    closing = arm(tag, cur)
         return exp
     if kind == "toggle":
         ent = spec[1]
